@@ -121,7 +121,9 @@ theorem ctlUpdateMem_ht (mem : Rec) (op : CtlOp) (R0 : List RunS) :
   · rename_i ha
     refine HT.bind (HT.pre ?_ (HT.tryM (HT.store _))) (fun r => ?_)
     · intro s hi ⟨_, hb⟩
-      exact legal_ctl hi (hb ha) (target op) (ctlReason op) (target_cases op) ha
+      refine ⟨legal_ctl hi (hb ha) (target op) (ctlReason op) (target_cases op) ha, ?_⟩
+      obtain ⟨h, ⟨x, t, hx, _⟩, hid, _⟩ := hb ha
+      exact legalNew_existing (x := x) (by rw [← hid] at *; exact hx)
     · cases r with
       | ok _ => exact HT.pure (fun _ _ => Or.inl rfl)
       | error a => exact HT.pure (fun _ _ => Or.inr (Or.inr rfl))
@@ -265,7 +267,9 @@ theorem updater_ht (current next : Status) (run : Rec) (o : Obj) :
           · exact Or.inl a
           · exact Or.inr a
           · exact absurd a hne
-        exact legal_advance hi hh hid hv hf hc hrs' next o s.now hedge
+        refine ⟨legal_advance hi hh hid hv hf hc hrs' next o s.now hedge, ?_⟩
+        obtain ⟨x, t, hx, _⟩ := hh
+        exact legalNew_existing (x := x) (by rw [hid] at hx; exact hx)
 
 theorem not_stopped_range {rs : Int} (h1 : 1 ≤ rs) (h7 : rs ≤ 7) (hs : Gen.stopped rs = false) : rs = 1 ∨ rs = 2 ∨ rs = 5 := by
   have : rs = 1 ∨ rs = 2 ∨ rs = 3 ∨ rs = 4 ∨ rs = 5 ∨ rs = 6 ∨ rs = 7 := by omega
@@ -505,7 +509,9 @@ theorem deleteHandle_ht (e : Event) :
       rw [hid, hx] at hx'
       cases hx'
       exact chain_head_after_rdd x.hist record t hl (hi.hist _ _ hx).chain ⟨w, hw, h7⟩
-    exact legal_delete hi hh hrs newObj
+    refine ⟨legal_delete hi hh hrs newObj, ?_⟩
+    obtain ⟨x', t, hx', _⟩ := hh
+    exact legalNew_existing (x := x') hx'
 
 theorem retryHandle_ht (e : Event) : HT cfg env (fun _ => True) (retryHandle cfg e) (fun _ _ => True) := by
   unfold retryHandle
@@ -769,6 +775,38 @@ theorem Fr.leaseLossOp (p : Proc) : Fr (leaseLossOp cfg p) := by
 
 /-! ## API calls -/
 
+theorem finished_spec_of_gen {rs : Int} (h1 : 1 ≤ rs) (h7 : rs ≤ 7) (hf : Gen.finished rs = true) : FinishedSpec rs := by
+  have : rs = 1 ∨ rs = 2 ∨ rs = 3 ∨ rs = 4 ∨ rs = 5 ∨ rs = 6 ∨ rs = 7 := by omega
+  unfold FinishedSpec
+  rcases this with rfl | rfl | rfl | rfl | rfl | rfl | rfl <;> simp_all [Gen.finished, Gen.finishedCases]
+
+/-- Trigger's test on the latest run of the foreign ID: when it lets the call through, every run of the foreign ID is finished -/
+theorem othersFin_of_trigger_check {s : Sys} (hi : Inv cfg s) (fid : Fid) (last : Option Rec) (hl : last = latestR s.runs fid)
+    (hc : ¬ Gen.G.triggerInProgress ((last.map (·.runState)).getD Gen.RunStateUnknown) = true) : OthersFin s.runs fid := by
+  refine othersFin_of_last hi.one fid (fun y hfind => ?_)
+  have hmem : y ∈ s.runs := by simpa using List.mem_of_find?_eq_some hfind
+  obtain ⟨i, hlt, hget⟩ := List.getElem_of_mem hmem
+  have hx : s.runs[i]? = some y := by rw [List.getElem?_eq_getElem hlt, hget]
+  have hrun := hi.hist _ _ hx
+  cases hh : y.hist with
+  | nil => have := hrun.chain; rw [hh] at this; exact this.elim
+  | cons h t =>
+    have hrec := hrun.recs h (by rw [hh]; simp)
+    have hlast : last = some h := by
+      rw [hl]; unfold latestR; rw [hfind]; simp [hh]
+    rw [hlast] at hc
+    simp only [Option.map_some, Option.getD_some, Gen.G.triggerInProgress, Bool.and_eq_true, Bool.not_eq_true', not_and,
+      Bool.not_eq_false] at hc
+    have hvalid : Gen.valid h.runState = true := by
+      have h1 := hrec.lo
+      have h7 := hrec.hi
+      unfold Gen.valid
+      simp [Gen.RunStateUnknown, Gen.runStateSentinel]
+      constructor
+      · womega
+      · exact decide_eq_true (by womega)
+    exact ⟨h, t, hh, finished_spec_of_gen hrec.lo hrec.hi (hc hvalid)⟩
+
 theorem triggerApi_ht (fid : Fid) (start : Status) (n : Obj) :
     HT cfg env (fun _ => True) (triggerApi cfg fid start n) (fun _ _ => True) := by
   unfold triggerApi
@@ -779,11 +817,14 @@ theorem triggerApi_ht (fid : Fid) (start : Status) (n : Obj) :
     refine HT.bind (HT.latest _) (fun last => ?_)
     split
     · exact HT.throwA _
-    · refine HT.bind HT.getSys (fun s => ?_)
+    · rename_i hc
+      refine HT.bind HT.getSys (fun s => ?_)
       refine HT.bind (HT.pre ?_ (HT.updateRecord _)) (fun _ => HT.pure (fun _ _ => trivial))
-      intro s' _ hp
+      intro s' hi' hp
+      have hof : OthersFin s'.runs fid := othersFin_of_trigger_check hi' fid last hp.1.2 hc
       rw [← hp.2.1]
-      exact legal_trigger fid st n s.now (C02.C02_trigger_start_declared cfg start st hts).1
+      rw [← hp.2.1] at hof
+      exact ⟨legal_trigger fid st n s.now (C02.C02_trigger_start_declared cfg start st hts).1, fun _ => hof⟩
 
 theorem ctlFreshApi_ht (rid : RunId) (op : CtlOp) :
     HT cfg env (fun _ => True) (ctlFreshApi cfg rid op) (fun _ _ => True) := by
